@@ -1449,6 +1449,19 @@ class Compiler:
             self._patch_jump(jump_end)
 
         elif isinstance(node, AssignmentExpression):
+            op_map = {
+                "+": OpCode.ADD,
+                "-": OpCode.SUB,
+                "*": OpCode.MUL,
+                "/": OpCode.DIV,
+                "%": OpCode.MOD,
+                "&": OpCode.BAND,
+                "|": OpCode.BOR,
+                "^": OpCode.BXOR,
+                "<<": OpCode.SHL,
+                ">>": OpCode.SHR,
+                ">>>": OpCode.USHR,
+            }
             if isinstance(node.left, Identifier):
                 name = node.left.name
                 if node.operator == "=":
@@ -1471,19 +1484,6 @@ class Compiler:
                                 self._emit(OpCode.LOAD_NAME, idx)
                     self._compile_expression(node.right)
                     op = node.operator[:-1]  # Remove '='
-                    op_map = {
-                        "+": OpCode.ADD,
-                        "-": OpCode.SUB,
-                        "*": OpCode.MUL,
-                        "/": OpCode.DIV,
-                        "%": OpCode.MOD,
-                        "&": OpCode.BAND,
-                        "|": OpCode.BOR,
-                        "^": OpCode.BXOR,
-                        "<<": OpCode.SHL,
-                        ">>": OpCode.SHR,
-                        ">>>": OpCode.USHR,
-                    }
                     self._emit(op_map[op])
 
                 self._emit(OpCode.DUP)
@@ -1511,7 +1511,13 @@ class Compiler:
                 else:
                     idx = self._add_constant(node.left.property.name)
                     self._emit(OpCode.LOAD_CONST, idx)
+                if node.operator != "=":
+                    # Compound assignment: combine the current value
+                    self._emit(OpCode.DUP2)  # [obj, key, obj, key]
+                    self._emit(OpCode.GET_PROP)  # [obj, key, old_value]
                 self._compile_expression(node.right)
+                if node.operator != "=":
+                    self._emit(op_map[node.operator[:-1]])
                 self._emit(OpCode.SET_PROP)
 
         elif isinstance(node, SequenceExpression):
